@@ -76,7 +76,7 @@ def main(tier, replay_payload=None):
 
     def replayer(p):
         if p.get("harness") == "fault":
-            return fault.replay_fault(f_args, fault_menu, p["vals"], p["clauses"])
+            return fault.replay_fault(f_args, fault_menu, p["vals"], p["clauses"], obstruct=True)
         if p.get("family") == "faulted":
             return conc.replay_schedule(MIX_ARGS, faulted_for(tier), p["k"], p["log"], p["bound"], p["clauses"][0],
                                         fault_at=p.get("fault_at"))
@@ -100,7 +100,7 @@ def main(tier, replay_payload=None):
     C07.fold(run, outs, "C08:", 1)
     for sig in set(run.failures) - before:
         run.failures[sig]["payload"]["family"] = "faulted"
-    res = fault.explore_faults(f_args, fault_menu, 1)
+    res = fault.explore_faults(f_args, fault_menu, 1, obstruct=True)
     C13.fold(run, res, "C08:")
     run.functions = loader.function_lines(loader.load(), API_FUNCS + [
         "FileHashStore._synchronize_object_locked_pids", "FileHashStore._release_object_locked_pids",
@@ -109,7 +109,8 @@ def main(tier, replay_payload=None):
     run.bounds = dict(schedules="C07 and C12 pair scenarios (quick: from half of the starting states; thorough: all) + "
                                 "20 mixed pairs + 3 (6) pairs whose calls go through two store instances of one "
                                 "process (termination and lock lists only), preemption bound %d" % bound,
-                      faults="every single call of the C13 menu with one injected I/O error (once / persistent); "
+                      faults="every single call of the C13 menu with one injected I/O error (once / persistent) or, at "
+                             "a mkdir, a regular file sitting where the directory is wanted; "
                              "2 (4) contending pairs at preemption bound 1 with one I/O error at a symbolic operation",
                       step_budget=4000)
     run.explanation = ("Deadlock is decided by the explored interleavings themselves: an execution in which some thread is "
